@@ -410,7 +410,7 @@ func familyToPath(name string, strs []string) fw.Family {
 			tw := face.TextWidth(s)
 			r.Transitions++
 			wantW := f * float64(sum)
-			if relErr(tw, wantW) > 1e-9 {
+			if !(relErr(tw, wantW) <= 1e-9) {
 				report(r, "textwidth", fmt.Sprintf("TextWidth(%q) = %v mm, the laid-out advances sum to %d units = %v mm", s, tw, sum, wantW))
 			}
 			t := canvas.NewTextLine(face, s, canvas.Left)
@@ -428,7 +428,7 @@ func familyToPath(name string, strs []string) fw.Family {
 				}
 			})
 			r.Outcome(fmt.Sprintf("textline-spans=%d", nspans))
-			if relErr(sw, tw) > 1e-9 {
+			if !(relErr(sw, tw) <= 1e-9) {
 				report(r, "span-width", fmt.Sprintf("NewTextLine(%q): the span widths sum to %v mm, TextWidth says %v mm", s, sw, tw))
 			}
 			r.Validated++
@@ -481,7 +481,7 @@ func toPathCheck(r *fw.R, src *fontSrc, face *canvas.FontFace, v faceVariant, s 
 	dist, how := outlineDistance(want, got, wantSp, gotSp, tol)
 	r.Outcome("topath:" + how)
 	r.Max("ToPath distance / (1e-6 size)", dist/tol)
-	if dist > tol {
+	if !(dist <= tol) {
 		report(r, "topath-outline"+suffix, fmt.Sprintf("ToPath(%q) is %.3g mm (%.3g of the size) away from the glyph outlines of the source font placed at the cumulative advances (%s); laid-out glyphs %v; ToPath = %s", s, dist, dist/face.Size, how, glyphs, clipS(p.String(), 300)))
 	}
 	wantAdv := f * float64(x-int(v.xoff))
@@ -554,7 +554,7 @@ func familyRenderAsPath(name string, strs []string) fw.Family {
 			tol := 1e-6 * size
 			dist, how := outlineDistance(want, got, wantSp, gotSp, tol)
 			r.Outcome("renderaspath:" + how)
-			if dist > tol {
+			if !(dist <= tol) {
 				report(r, "renderaspath-outline", fmt.Sprintf("RenderAsPath is %.3g mm (%.3g of the size) away from the glyph outlines placed by the layout (%s); layout: %s", dist, dist/size, how, describeSpans(dr.spans)))
 			}
 			r.Max("RenderAsPath distance / (1e-6 size)", dist/tol)
